@@ -31,7 +31,11 @@ type arrival struct {
 var dgClasses = []string{"valid", "short", "long", "wrong-serial", "serial-0", "wrong-code", "wrong-som", "malformed"}
 
 // one call of GetCardByID through the real driver against a scripted responder
-func drvCase(c *ctx, r *rng.R, path string, bind int, arr []arrival, special string, debug bool) (string, string) {
+func drvCase(c *ctx, r *rng.R, path string, bind int, arr []arrival, special string, debug bool, timeouts ...time.Duration) (string, string) {
+	timeout := T
+	if len(timeouts) > 0 {
+		timeout = timeouts[0]
+	}
 	serial := uint32(405419896)
 	card := uint32(8165538)
 	steps := func(req []byte) []step {
@@ -93,7 +97,7 @@ func drvCase(c *ctx, r *rng.R, path string, bind int, arr []arrival, special str
 		}
 	}
 	defer closeFn()
-	u := newRealClient(clientCfg{path, bind, "", debug}, serial, endpoint)
+	u := newRealClient(clientCfg{path, bind, "", debug, timeout}, serial, endpoint)
 	t0 := time.Now()
 	res, err := getCard(u, serial, card)
 	el := time.Since(t0)
@@ -113,10 +117,14 @@ func drvCase(c *ctx, r *rng.R, path string, bind int, arr []arrival, special str
 	if debug {
 		dbg = " debug=on"
 	}
-	line := fmt.Sprintf("drv %s bind=%s special=%s T=%d%s | %s", path, map[bool]string{true: "0", false: "fixed"}[bind == 0], special, T.Milliseconds(), dbg, strings.Join(ats, " "))
+	line := fmt.Sprintf("drv %s bind=%s special=%s T=%d%s | %s", path, map[bool]string{true: "0", false: "fixed"}[bind == 0], special, timeout.Milliseconds(), dbg, strings.Join(ats, " "))
 	n := received()
 	if special == "refused" || special == "reset" {
 		n = 1
+	}
+	if timeout == 0 {
+		// a client configured with no time at all: whether the request still gets out before the deadline is not specified
+		return line, fmt.Sprintf("%s %s requests=-", out, timeClassOf(el, timeout))
 	}
 	return line, fmt.Sprintf("%s %s requests=%d", out, timeClass(el), n)
 }
@@ -151,6 +159,7 @@ func streamDrv(c *ctx) {
 		special string
 		seed    uint64
 		debug   bool
+		timeout time.Duration
 	}
 	jobs := []job{}
 	// deterministic part: on every path each class as the only datagram and followed by a valid one
@@ -162,9 +171,9 @@ func streamDrv(c *ctx) {
 			classes = append(classes, "empty") // a zero-length datagram (UDP only: an empty TCP write sends nothing)
 		}
 		for _, cl := range classes {
-			jobs = append(jobs, job{path, 0, []arrival{{8, cl}}, "none", r.U64(), false})
-			jobs = append(jobs, job{path, 0, []arrival{{8, cl}, {30, "valid"}}, "none", r.U64(), false})
-			jobs = append(jobs, job{path, 0, []arrival{{8, cl}}, "none", r.U64(), true}) // the same with the debug flag on
+			jobs = append(jobs, job{path, 0, []arrival{{8, cl}}, "none", r.U64(), false, T})
+			jobs = append(jobs, job{path, 0, []arrival{{8, cl}, {30, "valid"}}, "none", r.U64(), false, T})
+			jobs = append(jobs, job{path, 0, []arrival{{8, cl}}, "none", r.U64(), true, T}) // the same with the debug flag on
 		}
 	}
 	// a busy network: 300 datagrams from other controllers (and runts) within 60 ms, then the awaited reply - the
@@ -175,16 +184,16 @@ func streamDrv(c *ctx) {
 			many = append(many, arrival{5 + i/5, []string{"wrong-serial", "short", "wrong-serial", "long"}[i%4]})
 		}
 		many = append(many, arrival{90, "valid"})
-		jobs = append(jobs, job{"broadcast", 0, many, "none", r.U64(), false})
+		jobs = append(jobs, job{"broadcast", 0, many, "none", r.U64(), false, T})
 	}
 	// a controller configured with protocol "any" (UDP) that stays silent, answers late, answers well
 	for _, arr := range [][]arrival{{}, {{8, "valid"}}, {{int(T.Milliseconds()) * 18 / 10, "valid"}}, {{8, "short"}}} {
-		jobs = append(jobs, job{"any", 0, arr, "none", r.U64(), false})
+		jobs = append(jobs, job{"any", 0, arr, "none", r.U64(), false, T})
 	}
-	jobs = append(jobs, job{"any", 0, []arrival{}, "stall", r.U64(), false}) // silent on UDP, and a TCP endpoint on the same port that would stall
+	jobs = append(jobs, job{"any", 0, []arrival{}, "stall", r.U64(), false, T}) // silent on UDP, and a TCP endpoint on the same port that would stall
 	// a valid reply that arrives in two separately delivered pieces (10 + 54 bytes, 50 ms apart)
 	for _, path := range []string{"tcp", "udp", "broadcast"} {
-		jobs = append(jobs, job{path, 0, []arrival{{8, "part1"}, {58, "part2"}}, "none", r.U64(), false})
+		jobs = append(jobs, job{path, 0, []arrival{{8, "part1"}, {58, "part2"}}, "none", r.U64(), false, T})
 	}
 	// a continuous flood of irrelevant datagrams, closer together than the timeout, for three timeouts:
 	// the call must still end one timeout after it was made (no deadline is re-armed by a stray)
@@ -193,8 +202,14 @@ func streamDrv(c *ctx) {
 		for t := int(T.Milliseconds()) * 3 / 10; t < int(T.Milliseconds())*3; t += int(T.Milliseconds()) * 3 / 10 {
 			flood = append(flood, arrival{t, cl})
 		}
-		jobs = append(jobs, job{"broadcast", 0, flood, "none", r.U64(), false})
+		jobs = append(jobs, job{"broadcast", 0, flood, "none", r.U64(), false, T})
 	}
+	// a client configured with a timeout of zero: every call still returns (with an error: there is no time for a reply)
+	for _, path := range []string{"broadcast", "udp", "tcp", "any"} {
+		jobs = append(jobs, job{path, 0, []arrival{}, "none", r.U64(), false, 0})
+		jobs = append(jobs, job{path, 0, []arrival{{8, "valid"}}, "none", r.U64(), true, 0})
+	}
+	jobs = append(jobs, job{"tcp", 0, []arrival{}, "stall", r.U64(), false, 0})
 	N := 40 * c.scale
 	for i := 0; i < N; i++ {
 		path := rng.Pick(r, "broadcast", "udp", "tcp")
@@ -208,7 +223,7 @@ func streamDrv(c *ctx) {
 				special = "none"
 			}
 		}
-		jobs = append(jobs, job{path, 0, genArrivalSeq(r), special, r.U64(), i%4 == 3})
+		jobs = append(jobs, job{path, 0, genArrivalSeq(r), special, r.U64(), i%4 == 3, T})
 	}
 	// bind port 0: in parallel
 	type res struct{ line, out string }
@@ -221,7 +236,7 @@ func streamDrv(c *ctx) {
 		go func(i int, j job) {
 			defer wg.Done()
 			defer func() { <-sem }()
-			l, o := drvCase(c, rng.New(j.seed), j.path, j.bind, j.arr, j.special, j.debug)
+			l, o := drvCase(c, rng.New(j.seed), j.path, j.bind, j.arr, j.special, j.debug, j.timeout)
 			results[i] = res{l, o}
 		}(i, j)
 	}
@@ -267,8 +282,8 @@ func streamLock(c *ctx) {
 			if i%2 == 1 && path != "tcp" {
 				ip1, note = "0.0.0.0", "/first-client-binds-0.0.0.0"
 			}
-			u1 := newRealClient(clientCfg{path, bind, ip1, false}, serial1, ep1)
-			u2 := newRealClient(clientCfg{path, bind, "", false}, serial2, ep2)
+			u1 := newRealClient(clientCfg{path, bind, ip1, false, T}, serial1, ep1)
+			u2 := newRealClient(clientCfg{path, bind, "", false, T}, serial2, ep2)
 			var wg sync.WaitGroup
 			var o1, o2 string
 			var e2 time.Duration
@@ -315,8 +330,8 @@ func streamLock(c *ctx) {
 			return []step{{T + 60*time.Millisecond, cardReply(1000011, 111)}}
 		})
 		prompt := newUDPResponder("127.0.0.1", echo(func() time.Duration { return 120 * time.Millisecond }))
-		u1 := newRealClient(clientCfg{"broadcast", bind, "", false}, 1000011, late.addr())
-		u2 := newRealClient(clientCfg{"broadcast", bind, "", false}, 1000012, prompt.addr())
+		u1 := newRealClient(clientCfg{"broadcast", bind, "", false, T}, 1000011, late.addr())
+		u2 := newRealClient(clientCfg{"broadcast", bind, "", false, T}, 1000012, prompt.addr())
 		_, err1 := getCard(u1, 1000011, 111)
 		res, err2 := getCard(u2, 1000012, 222)
 		o1 := map[bool]string{true: "ok", false: "err"}[err1 == nil]
@@ -336,9 +351,9 @@ func streamLock(c *ctx) {
 	for _, next := range []string{"udp", "broadcast"} {
 		bind := freePort()
 		refused := fmt.Sprintf("127.0.0.1:%d", freePort())
-		u1 := newRealClient(clientCfg{"tcp", bind, "", false}, 1000004, refused)
+		u1 := newRealClient(clientCfg{"tcp", bind, "", false, T}, 1000004, refused)
 		b := newUDPResponder("127.0.0.1", echo(func() time.Duration { return 10 * time.Millisecond }))
-		u2 := newRealClient(clientCfg{next, bind, "", false}, 1000005, b.addr())
+		u2 := newRealClient(clientCfg{next, bind, "", false, T}, 1000005, b.addr())
 		_, err1 := getCard(u1, 1000004, 444)
 		res, err2 := getCard(u2, 1000005, 555)
 		b.close()
@@ -357,7 +372,7 @@ func streamLock(c *ctx) {
 	{
 		bind := freePort()
 		b := newTCPResponder("127.0.0.1", echo(func() time.Duration { return 5 * time.Millisecond }))
-		u := newRealClient(clientCfg{"tcp", bind, "", false}, 1000003, b.addr())
+		u := newRealClient(clientCfg{"tcp", bind, "", false, T}, 1000003, b.addr())
 		_, err1 := getCard(u, 1000003, 333)
 		_, err2 := getCard(u, 1000003, 333)
 		b.close()
@@ -392,7 +407,7 @@ func streamLeak(c *ctx) {
 		}
 		// discovery starts a reader goroutine per call
 		rs := newUDPResponder("127.0.0.1", func(req []byte) []step { return []step{{5 * time.Millisecond, cardReply(1, 1)}} })
-		u := newRealClient(clientCfg{"broadcast", 0, "", false}, 1, rs.addr())
+		u := newRealClient(clientCfg{"broadcast", 0, "", false, T}, 1, rs.addr())
 		u.GetDevices()
 		u.GetDevices()
 		rs.close()
